@@ -120,14 +120,24 @@ def cases(draw, tier):
         flat = []
         for sid in mine:
             for _ in range(draw(st.integers(0, 2))):
-                flat.append(draw(st.sampled_from(['sleep', 'instant', 'nest_open', 'nest_close', 'run_break'])))
+                flat.append(draw(st.sampled_from(['sleep', 'instant', 'nest_open', 'nest_close', 'run_break', 'transfer'])))
             flat.append(('sync', sid))
         for _ in range(draw(st.integers(0, 3))):
-            flat.append(draw(st.sampled_from(['sleep', 'instant', 'nest_open', 'nest_close', 'run_break'])))
+            flat.append(draw(st.sampled_from(['sleep', 'instant', 'nest_open', 'nest_close', 'run_break', 'transfer'])))
         # build: list of top-level programs (run_break separates them), nesting by nest_open/close
         progs = []
         stack = [[]]
         start = [draw(st.sampled_from([0, 10, 100, -5]))]
+        # simulations using library objects (their own pipe); a background activity keeps a transfer in flight
+        # while the main activity meets the other threads
+        lib = draw(st.booleans())
+
+        def top(steps):
+            pr = {'start': start[0], 'objs': {'pipes': [{'thr': 1}]}, 'roots': [{'name': 'm', 'steps': steps + [{'op': 'now'}]}]}
+            if lib:
+                pr['roots'].append({'name': 'bg', 'steps': [{'op': 'transfer', 'p': 0, 'total': draw(st.sampled_from([4, 8, 16])),
+                                                            'thr': None}, {'op': 'now'}]})
+            return pr
 
         def close_all():
             while len(stack) > 1:
@@ -140,6 +150,11 @@ def cases(draw, tier):
                 stack[-1].append({'op': 'sleep', 'd': draw(st.sampled_from([0.5, 1, 2]))})
             elif it_ == 'instant':
                 stack[-1].append({'op': 'instant'})
+            elif it_ == 'transfer':
+                if len(stack) == 1:
+                    stack[-1].append({'op': 'transfer', 'p': 0, 'total': draw(st.sampled_from([0.5, 1, 2])), 'thr': None})
+                else:
+                    stack[-1].append({'op': 'sleep', 'd': 1})
             elif it_ == 'nest_open' and len(stack) < 3:
                 stack.append([{'op': 'now'}])
             elif it_ == 'nest_close' and len(stack) > 1:
@@ -151,7 +166,7 @@ def cases(draw, tier):
             elif it_ == 'run_break':
                 close_all()
                 if stack[0]:
-                    progs.append({'start': start[0], 'objs': {}, 'roots': [{'name': 'm', 'steps': stack[0] + [{'op': 'now'}]}]})
+                    progs.append(top(stack[0]))
                     stack[0] = []
                     start[0] = draw(st.sampled_from([0, 10, 100, -5]))
             elif isinstance(it_, tuple):
@@ -159,7 +174,7 @@ def cases(draw, tier):
                 stack[-1].append({'op': 'now'})
         close_all()
         if stack[0]:
-            progs.append({'start': start[0], 'objs': {}, 'roots': [{'name': 'm', 'steps': stack[0] + [{'op': 'now'}]}]})
+            progs.append(top(stack[0]))
         threads.append(progs)
     return {'kind': 'threads', 'threads': threads, 'nsync': nsync}
 
@@ -404,6 +419,8 @@ class C15(Check):
         out.nontrivial = nsync >= 1
         if any(any('nested_run' in str(p) for p in progs) for progs in threads):
             out.features.add('threads_nested')
+        if sum(1 for progs in threads if any(len(p['roots']) > 1 for p in progs)) >= 2:
+            out.features.add('threads_with_transfers_in_flight')
 
 
 CHECK = C15()
